@@ -1027,6 +1027,25 @@ fn main() {
                         }
                     }
                     let cl = rnd_sa(&mut r);
+                    if variant == 7 && round % 2 == 1 {
+                        // the whole session under a trickle from the first byte on: status, login and transfer intents
+                        // (the sends of those phases are not raced: each simply waits for room)
+                        let intent = *r.pick(&[Intent::Status, Intent::Login, Intent::Transfer]);
+                        let mut p = base_params(&mut r, intent);
+                        p.ka = KaPolicy::Prompt(51 + 4 * r.below(50));
+                        let secret = if r.chance(1, 2) { Some(r.bytes(16)) } else { None };
+                        if let (Intent::Transfer, Some(sec)) = (intent, &secret) { if r.chance(2, 3) { p.auth_payload = Some(valid_auth_cookie(&mut r, &cl, sec, 5, 21_600, false)); } }
+                        let mut ads = base_ads(&mut r);
+                        ads.discover.1 = 200 + 4 * r.below(30); ads.filter.1 = 100 + 4 * r.below(30); ads.select.1 = 52 + 4 * r.below(30);
+                        let mut ws: Vec<(u64, Option<usize>)> = vec![];
+                        let mut t = 0u64;
+                        for _ in 0..(40 + r.below(400)) { ws.push((t, Some(*r.pick(&[0usize, 1, 2, 3, 7, 19, 64, 300])))); t += 4 * (1 + r.below(3)); }
+                        ws.push((t, None));
+                        let mut sc = build("WCAP", &mut r, &p, ads, secret, cl, format!("{:?} under a trickle from the first byte ({} instants) #{}", intent, ws.len(), i));
+                        sc.wsched = ws;
+                        run(sc, &mut r);
+                        continue;
+                    }
                     let mut sc = build("WCAP", &mut r, &p, ads.clone(), None, cl, format!("{} #{}", note, i));
                     let ack = sc.acts.iter().position(|a| matches!(a, Act::Frame { id: 3, .. })).unwrap();
                     let ci = sc.acts.iter().position(|a| matches!(a, Act::Frame { id: 0, body } if body.len() > 5 && sc.acts.iter().position(|x| std::ptr::eq(x, a)).unwrap() > ack)).unwrap();
